@@ -131,6 +131,77 @@ def _run_one(c: Cond) -> Res:
     return r
 
 
+def _parse_msgs(out: str):
+    msgs = []
+    buf = None
+    for ln in out.splitlines():
+        m = _MSG.match(ln)
+        if m:
+            buf = [int(m.group("line")), m.group("kind"), m.group("msg")]
+            msgs.append(buf)
+        elif buf is not None and not ln.startswith("XHSTATS "):
+            buf[2] += "\n" + ln
+    return msgs
+
+
+def _classify(c: Cond, msgs) -> tuple[str, str, str]:
+    errs = [m for _, k, m in msgs if k == "error"]
+    infos = [m for _, k, m in msgs if k == "info"]
+    if errs:
+        msg = errs[0]
+        mm = re.search(r"when calling (" + re.escape(c.func) + r"\(.*?\))(?: \(which (?:returns|raises) .*\))?\s*$", msg, flags=re.S)
+        if mm:
+            return REFUTED, msg, mm.group(1)
+        return ERROR, msg, ""
+    if any("Confirmed over all paths" in m for m in infos):
+        return CONFIRMED, "Confirmed over all paths.", ""
+    if any("Unable to meet precondition" in m for m in infos):
+        return NOPRE, "Unable to meet precondition.", ""
+    if any("Not confirmed" in m for m in infos):
+        return UNKNOWN, "Not confirmed.", ""
+    return UNKNOWN, "no verdict line", ""
+
+
+def _run_batch(conds: list[Cond]) -> list[Res]:
+    """Several conditions of one file in one worker process (amortises interpreter/z3 start-up)."""
+    if len(conds) == 1:
+        return [_run_retry(conds[0])]
+    t0 = time.time()
+    tmo = max(c.timeout for c in conds)
+    hard = sum(c.timeout for c in conds) * 2.0 + 60
+    env = dict(os.environ)
+    env["PYTHONPATH"] = C.VERIF + os.pathsep + os.path.dirname(conds[0].file) + os.pathsep + env.get("PYTHONPATH", "")
+    env["PYTHONHASHSEED"] = "0"
+    cmd = [sys.executable, "-m", "vf.xh_worker", str(tmo)] + [f"{c.file}:{c.line}" for c in conds]
+    try:
+        p = subprocess.run(cmd, capture_output=True, text=True, timeout=hard, env=env, cwd=os.path.dirname(conds[0].file))
+        out, err = p.stdout, p.stderr
+    except subprocess.TimeoutExpired as e:
+        return [Res(c, UNKNOWN, "hard wall-clock limit (batch)", wall_s=time.time() - t0) for c in conds]
+    stats = {}
+    for ln in out.splitlines():
+        if ln.startswith("XHSTATS "):
+            try:
+                stats = json.loads(ln[8:])
+            except Exception:
+                pass
+    msgs = _parse_msgs(out)
+    # line ranges of the functions
+    tree = ast.parse(open(conds[0].file).read())
+    rng = {n.name: (n.lineno, n.end_lineno) for n in tree.body if isinstance(n, ast.FunctionDef)}
+    res = []
+    n = len(conds)
+    for c in conds:
+        lo, hi = rng.get(c.func, (0, -1))
+        mine = [m for m in msgs if lo <= m[0] <= hi]
+        v, msg, call = _classify(c, mine)
+        if not mine:
+            v, msg = UNKNOWN, "no message for this condition: " + (err or out)[-300:]
+        res.append(Res(c, v, msg, call, iterations=stats.get("iterations", 0) // n, smt_checks=stats.get("smt_checks", 0) // n, smt_s=stats.get("smt_s", 0.0) / n, cpu_s=stats.get("cpu_s", 0.0) / n, wall_s=(time.time() - t0) / n, raw=""))
+    # conditions without a definite verdict are re-run on their own (with retry)
+    return [r if r.verdict in (CONFIRMED, REFUTED) else _run_retry(r.cond) for r in res]
+
+
 def _run_retry(c: Cond) -> Res:
     r = _run_one(c)
     # CrossHair occasionally gives up early (non-exhausted tree well inside the budget); one retry
@@ -144,10 +215,17 @@ def _run_retry(c: Cond) -> Res:
     return r
 
 
-def run(conds: list[Cond], jobs: int = 0) -> list[Res]:
+def run(conds: list[Cond], jobs: int = 0, batch: int = 1) -> list[Res]:
     jobs = jobs or C.JOBS
+    if batch <= 1:
+        with cf.ThreadPoolExecutor(max_workers=jobs) as ex:
+            return list(ex.map(_run_retry, conds))
+    groups = [conds[i : i + batch] for i in range(0, len(conds), batch)]
     with cf.ThreadPoolExecutor(max_workers=jobs) as ex:
-        return list(ex.map(_run_retry, conds))
+        out = []
+        for rs in ex.map(_run_batch, groups):
+            out.extend(rs)
+        return out
 
 
 def load(genfile: str):
@@ -192,22 +270,26 @@ def api_replay(genfile: str, func: str, call: str):
     return eval(call, ns)
 
 
-def check_harness(rep: C.Report, path: str, groups: dict[str, dict], timeout: float, twin_timeout: float = 0.0, src: Optional[str] = None, explore_only: bool = False) -> None:
+def check_harness(rep: C.Report, path: str, groups: dict[str, dict], timeout: float, twin_timeout: float = 0.0, src: Optional[str] = None, explore_only: bool = False, batch: int = 1, twins: bool = True) -> None:
     """Run every contract function of a harness module.
 
     groups: {regex on function name: dict(name=..., functions=[..], bounds=...)} -> one Ob per group.
     """
     gen, where = prepare(path, src=src)
     twin_timeout = twin_timeout or max(30.0, timeout / 2)
+    only = os.environ.get("VERIF_ONLY")
+    if only:
+        where = {k: v for k, v in where.items() if re.search(only, k)}
     conds = []
     for fn, line in where.items():
         if fn.endswith("__reach"):
-            conds.append(Cond(gen, fn, line, twin_timeout, twin_of=fn[: -len("__reach")]))
+            if twins:
+                conds.append(Cond(gen, fn, line, twin_timeout, twin_of=fn[: -len("__reach")]))
         else:
             conds.append(Cond(gen, fn, line, timeout))
     # longest first is unknown; keep twins last so real conditions start early
     conds.sort(key=lambda c: c.twin_of is not None)
-    results = run(conds)
+    results = run(conds, batch=batch)
     by = {r.cond.func: r for r in results}
     if os.environ.get("VERIF_DEBUG"):
         for r in results:
